@@ -5,6 +5,7 @@ de-duplication (done by construction through a `used` set with numeric suffixes)
 One builder, parameterised by a profile dict of weights / switches.
 """
 import copy, keyword
+
 from hypothesis import strategies as st
 
 from . import model as M
@@ -193,9 +194,13 @@ class Builder:
                     self.pool.append({"full": f".{full}.{e['name']}", "kind": "enum", "file": fileidx, "msg": None, "pkg": self.cur_pkg})
         return m
 
-    def field_name(self, used):
+    def field_name(self, used, fileidx=0):
         if self.coin("p_reserved_field"):
             base = self.d(st.sampled_from(RESERVED_LOWER))
+            if fileidx == -1 and keyword.iskeyword(base):
+                # known finding F-dep-keyword-path: a field of a message that is not proto-plus named by a Python keyword
+                self.excluded.append("F-dep-keyword-path")
+                base = self.d(st.sampled_from(FIELD_WORDS))
         else:
             base = self.d(st.sampled_from(FIELD_WORDS))
         n, i = base, 1
@@ -273,15 +278,7 @@ class Builder:
             taken.add(x)
             nums.append(x)
         for i in range(n):
-            m["fields"].append(self.field(self.field_name(used), nums[i], fileidx, "." + full))
-        if m["fields"] and m["fields"][0]["type"] == "map" and m["fields"][0]["map_value"]["type"] == "message" \
-                and not self.p.get("allow_map_first"):
-            # known finding F-mock-map-recursion: Field.mock_value recurses without bound when the first
-            # field of a message is a map whose value type leads back to it; keep such maps off position 0
-            self.excluded.append("F-mock-map-recursion")
-            m["fields"].append(m["fields"].pop(0))
-            if m["fields"][0]["type"] == "map" and m["fields"][0]["map_value"]["type"] == "message":
-                m["fields"].insert(0, {"name": "lead_in", "number": _free_number(m["fields"]), "type": "string"})
+            m["fields"].append(self.field(self.field_name(used, fileidx), nums[i], fileidx, "." + full))
         if self.coin("p_oneof"):
             singles = [f for f in m["fields"] if not f.get("repeated") and f["type"] != "map" and not f.get("optional") and not f.get("required")]
             k = self.d(st.integers(0, min(2, len(singles))))
@@ -400,15 +397,24 @@ class Builder:
                     rule["body"] = self.d(st.sampled_from([f["name"] for f in tops]))
         return rule, chosen
 
-    def sig_paths(self, req, depth=0, prefix=""):
+    def sig_paths(self, req, depth=0, prefix="", in_dep=False):
         """candidate method_signature paths: top-level fields and dotted paths through singular local messages."""
         out = []
         for f in req["fields"]:
-            out.append((prefix + f["name"], f))
+            if in_dep and f["name"] in RESERVED:
+                # known finding F-dep-reserved-flattened: the parameter for a reserved-word field of a message that is
+                # not proto-plus keeps the bare name
+                self.excluded.append("F-dep-reserved-flattened")
+            elif in_dep and (f.get("repeated") or f["type"] in ("map", "message")):
+                # known finding F-dep-flattened-composite: the client assigns the parameter to the field, which a
+                # message that is not proto-plus refuses for repeated, map and message fields
+                self.excluded.append("F-dep-flattened-composite")
+            else:
+                out.append((prefix + f["name"], f))
             if f["type"] == "message" and not f.get("repeated") and depth < 2:
-                sub = next((t["msg"] for t in self.pool if t["full"] == f["type_name"] and t["msg"] is not None), None)
-                if sub is not None and sub is not req:
-                    out.extend(self.sig_paths(sub, depth + 1, prefix + f["name"] + "."))
+                t = next((t for t in self.pool if t["full"] == f["type_name"] and t["msg"] is not None), None)
+                if t is not None and t["msg"] is not req:
+                    out.extend(self.sig_paths(t["msg"], depth + 1, prefix + f["name"] + ".", in_dep or t["file"] == -1))
         return out
 
     def signature(self, req, fileidx, used_leaves):
@@ -731,7 +737,7 @@ class Builder:
         self.api_files = api["files"]
         fnames = Names()
         dep_file = None
-        if self.p.get("dep_only_file") and _p(self.draw, 0.6):
+        if self.p.get("dep_only_file") and _p(self.draw, 0.6 if self.p["dep_only_file"] is True else self.p["dep_only_file"]):
             dpkg = self.d(st.sampled_from(["other.dep.v1", "acme.shared", "zeta.common.v2"] + ([root + "extra"] if self.p.get("prefix_dep_pkg") else [])))
             self.cur_pkg = dpkg
             dnames = self.ns(dpkg)
